@@ -340,6 +340,12 @@ def _gen_sim(rng):
         sub = random.Random(repr((horizon, period, [(e["arrival"], e["departure"], e["requested"]) for e in evs])))
         case["ramp"] = {"up": sub.choice([1, 1, 0.5, 2]), "down": sub.choice([1, 1, 0.5, 2]),
                         "inc": sub.choice([1, 1, 0.5, 3])}
+    # the algorithm object's max_recompute set to k > 1 BEFORE the Simulator is built (legal, documented): the scheduler is
+    # then consulted at events and every k periods only, its one-period answer is in force for one period (private
+    # sub-generator: the shared main stream is not shifted)
+    sub2 = random.Random(repr(("max_recompute", horizon, period, len(evs), [e["requested"] for e in evs])))
+    if sub2.random() < 0.3:
+        case["max_recompute"] = sub2.choice([2, 3, 3, 5, 8])
     r = rng.random()
     if r < 0.35 and cons and cfg["algo"] != "uncontrolled":
         # the network is changed UNDER THE SAME CONSTRAINT NAME mid-simulation (post_charging_update hook)
@@ -935,6 +941,8 @@ def _run_sim(case):
     net = build_network(case)
     rec = _Recorder(case, net)
     algo = rec.make()
+    if case.get("max_recompute"):
+        algo.max_recompute = int(case["max_recompute"])
     events = EventQueue()
     evs = []
     for e in case["evs"]:
@@ -1017,7 +1025,7 @@ def model_request(case, obs):
         # SimpleRampdown object threaded from call to call — answered by drv_C07 only)
         req["simrun"] = {"stations": [{"id": st["id"], "kind": I.kind_wire(st["evse"]), "V": f2b(st["volt"])}
                                       for st in case["stations"]],
-                         "evs": [I.ev_wire(e) for e in case["evs"]], "recomputes": [], "max_recompute": 1,
+                         "evs": [I.ev_wire(e) for e in case["evs"]], "recomputes": [], "max_recompute": int(case.get("max_recompute") or 1),
                          "period": f2b(case["period"]), "noise": []}
     if case.get("est_spec") is not None and case["estimate"]:
         # an ARBITRARY estimator: the dict it returned is an input of every call (drv_C07: Sorted.scheduleCallEst);
@@ -1329,6 +1337,8 @@ def features(case, obs):
            f"est:{case['estimate']}" + (":arbitrary_estimator" if case["estimate"] and case.get("est_spec") is not None else ""),
            f"inc:{case['inc']}",
            f"stations:{len(case['stations'])}", f"calls:{min(len(obs['calls']), 20)}"]
+    if case["mode"] == "sim":
+        out.append(f"max_recompute:{case.get('max_recompute') or 1}")
     inf = obs["infra"]
     idx = {s: i for i, s in enumerate(inf["ids"])}
     out.append("constraints:%s" % ("none" if not inf["M"] else "some"))
